@@ -590,7 +590,13 @@ int main(int argc, char **argv) {
         for (;;) { struct timespec ts = {1, 0}; nanosleep(&ts, NULL); }
       }
     }
+    // one more descendant made the way posix_spawn / system() make theirs: vfork, then exec
+    if (n > 0) { pid_t v = vfork(); if (v == 0) { execl("/proc/self/exe", "probe_target", "linger", argv[3], (char *)NULL); _exit(97); } }
     write(1, "up\n", 3);
+    for (int k = 0; k < 60; k++) { struct timespec ts = {1, 0}; nanosleep(&ts, NULL); }
+    _exit(0);
+  } else if (!strcmp(c, "linger")) {
+    for (int s = 1; s < 65; s++) signal(s, SIG_IGN);
     for (int k = 0; k < 60; k++) { struct timespec ts = {1, 0}; nanosleep(&ts, NULL); }
     _exit(0);
   } else if (!strcmp(c, "mark")) {
